@@ -185,6 +185,7 @@ def parseArg (db : UniDb) : ArgTy → Str → Option Str
   | .verbatim, s => some s
 
 inductive Exec
+  | arity                          -- `signature.bind(*args)` fails: wrong number of arguments
   | noCommand                      -- nothing but whitespace: CommandError
   | unknown                        -- the first argument token is not a registered command
   | badArg                         -- an argument is rejected by its type
@@ -207,6 +208,42 @@ def execute (db : UniDb) (cmds : Str → Option ArgTy) (line : Str) : Exec :=
       match collect (args.map (parseArg db ty)) with
       | some as => .call name as
       | none => .badArg
+
+
+/-! ### every command signature shape -/
+
+/-- a command signature: positional parameters with their types, optionally followed by `*rest : t` -/
+structure Sig where
+  params : List ArgTy
+  varargs : Option ArgTy
+
+/-- `signature.bind(*args)` for `n` arguments: the type each argument is converted with (`none`: mismatch) -/
+def bindTys (sig : Sig) (n : Nat) : Option (List ArgTy) :=
+  if n < sig.params.length then none
+  else match sig.varargs with
+    | none => if n == sig.params.length then some sig.params else none
+    | some t => some (sig.params ++ List.replicate (n - sig.params.length) t)
+
+/-- the type of the i-th argument of a call -/
+def tyAt (sig : Sig) (i : Nat) : Option ArgTy :=
+  match sig.params[i]? with
+  | some t => some t
+  | none => sig.varargs
+
+/-- `CommandManager.execute(line)` → `call_strings` → `Command.prepare_args` → the command function -/
+def executeSig (db : UniDb) (cmds : Str → Option Sig) (line : Str) : Exec :=
+  match (argTokens line).map unquote with
+  | [] => .noCommand
+  | name :: args =>
+    match cmds name with
+    | none => .unknown
+    | some sig =>
+      match bindTys sig args.length with
+      | none => .arity
+      | some tys =>
+        match collect (List.zipWith (parseArg db) tys args) with
+        | some as => .call name as
+        | none => .badArg
 
 /-- the command line the console builds: the command and the quoted arguments, separated by one space -/
 def cmdline (cmd : Str) (args : List Str) : Str := cmd ++ args.flatMap (fun a => 32 :: quote a)
